@@ -239,6 +239,11 @@ func (s *fsm12) finish(ctx context.Context, c Conn) (State, error) {
 
 			return StateFinished, nil
 		}
+		if !s.currentFlight.IsLastSendFlight() {
+			// Session resumption: the server received the last flight (5b). It has
+			// nothing to retransmit and must not go back to waiting on a timer.
+			return StateFinished, nil
+		}
 
 		return StateSending, nil
 	case <-ctx.Done():
